@@ -5966,6 +5966,9 @@ class LazyContainer(dict):
     def __len__(self):
         return len(self._struct.subcons)
 
+    def __contains__(self, name):
+        return name in self._struct._subconsindexes
+
     def keys(self):
         return iter(self._struct._subcons)
 
